@@ -233,6 +233,7 @@ for _t in ('quick', 'thorough'):
             _q = dict(_r); _q['name'] += '-failing'; _q['bounds'] = 'allocator attribution on cleanup paths: ' + _q['bounds']; SPECS['C13']['runs'][_t].append(_q)
 SPECS['C15'] = {'runs': {
     'quick': [R('history', 'h_memmgr.c', ['OPS=2'], 'every sequence of 2 operations (malloc/calloc/realloc/reallocarray/free) over 2 slots; malloc/realloc sizes arbitrary 64-bit; products from {0..3} x {0,1,2,3,2^63,SIZE_MAX,SIZE_MAX/3+1}; backend failure at any position; payload <= 2 bytes', ['two-allocations-two-releases', 'product-overflow', 'realloc-to-zero', 'realloc-failed-old-intact', 'realloc-grow-moved', 'realloc-shrink-in-place'], 600, opts={'solver_timeout_ms': 3000}),
+              R('history-cap5', 'h_memmgr.c', ['OPS=2', 'CAP=5', 'TABN=1'], 'sequences of 2 operations with payloads of up to 5 bytes (shrinking a block to less than half of its size, growing it beyond twice); malloc/realloc sizes arbitrary 64-bit, element sizes 0', ['realloc-shrink-in-place', 'realloc-grow-moved'], 900),
               R('product', 'h_memmgr.c', ['OPS=1', 'MODE_PRODUCT'], 'calloc/reallocarray with one factor in 0..3 and the other an arbitrary 64-bit value', ['product-overflow'], 900, opts={'solver_timeout_ms': 3000}),
               R('selftest', 'h_memmgr.c', ['OPS=0', 'SELFTEST'], 'uriTestMemoryManager on the completed manager (concrete)', [], 300)],
     'thorough': [R('history', 'h_memmgr.c', ['OPS=2'], 'as quick', ['two-allocations-two-releases'], 900, opts={'solver_timeout_ms': 3000}),
